@@ -25,14 +25,14 @@ open TransEquiv
 /-! ## C17: after a write the window is the suffix of what was written -/
 
 theorem window_is_suffix (dict p : Bytes) (size : Nat) (h : dict.length ≤ size) :
-    (Trans.slideWindow_Write p true dict (size : Int)).1 = lastN size (dict ++ p) := by
+    (Trans.slideWindow_Write p (c_enabled := true) (c_dict := dict) (c_size := (size : Int))).1 = lastN size (dict ++ p) := by
   have := slideWindow_Write_eq { enabled := true, size := size, dict := dict } p
   simp only at this
   rw [this]
   exact Win.write_spec { enabled := true, size := size, dict := dict } p rfl h
 
 theorem disabled_window_stays_empty (p : Bytes) (size : Int) :
-    (Trans.slideWindow_Write p false [] size).1 = [] := by
+    (Trans.slideWindow_Write p (c_enabled := false) (c_dict := []) (c_size := size)).1 = [] := by
   simp [Trans.slideWindow_Write]
 
 /-! ## C06: the reply to a received Close frame, and the body of a locally requested close -/
@@ -72,7 +72,8 @@ theorem local_close_body (code : UInt16) (reason : Bytes) :
 /-- a frame above the read limit (or with the top bit of a 64-bit length set) is failed with 1009 before anything else -/
 theorem oversize_frame_1009 (readMax len : Int) (fh : List UInt8) (pd sv : Bool) (rc : Option GoErr)
     (h : len < 0 ∨ len > readMax) :
-    Trans.Conn_readMessage_header readMax fh pd sv len rc = .error (some (.status 1009)) := by
+    Trans.Conn_readMessage_header (c_config_ReadMaxPayloadSize := readMax) (c_fh := fh) (c_pd_Enabled := pd) (c_isServer := sv)
+        (contentLength := len) (readControlResult := rc) = .error (some (.status 1009)) := by
   unfold Trans.Conn_readMessage_header
   have : (decide (len < 0) || decide (len > readMax)) = true := by simpa using h
   simp [this]
@@ -84,7 +85,8 @@ theorem header_violation_1002 (readMax len : Int) (fh : List UInt8) (pd sv : Boo
       ∨ (Trans.frameHeader_GetRSV1 fh = true ∧
           ¬ (pd = true ∧ (Trans.frameHeader_GetOpcode fh = 1 ∨ Trans.frameHeader_GetOpcode fh = 2)))
       ∨ Trans.frameHeader_GetMask fh ≠ sv) :
-    Trans.Conn_readMessage_header readMax fh pd sv len rc = .error (some (.status 1002)) := by
+    Trans.Conn_readMessage_header (c_config_ReadMaxPayloadSize := readMax) (c_fh := fh) (c_pd_Enabled := pd) (c_isServer := sv)
+        (contentLength := len) (readControlResult := rc) = .error (some (.status 1002)) := by
   unfold Trans.Conn_readMessage_header Trans.Conn_checkMask
   have : (decide (len < 0) || decide (len > readMax)) = false := by simpa using hl
   simp only [this, Bool.false_eq_true, ↓reduceIte]
@@ -120,14 +122,19 @@ theorem gate_off_never (opcode : UInt8) (p : Bytes) : Trans.internal_CheckEncodi
 /-! ## C12: after initialisation the window bits of an enabled configuration lie in 8..15 -/
 
 theorem server_bits_in_range (sb cb thr lvl ps pow2 : Int) (st ct : Bool) :
-    ∃ cb' lvl' ps' sb' thr', Trans.initServerOption_pd true sb cb thr lvl ps st ct pow2 = .ok (cb', lvl', ps', sb', thr')
+    ∃ cb' lvl' ps' sb' thr', Trans.initServerOption_pd (c_PermessageDeflate_Enabled := true) (c_PermessageDeflate_ServerMaxWindowBits := sb)
+        (c_PermessageDeflate_ClientMaxWindowBits := cb) (c_PermessageDeflate_Threshold := thr) (c_PermessageDeflate_Level := lvl)
+        (c_PermessageDeflate_PoolSize := ps) (c_PermessageDeflate_ServerContextTakeover := st)
+        (c_PermessageDeflate_ClientContextTakeover := ct) (poolSizePow2 := pow2) = .ok (cb', lvl', ps', sb', thr')
       ∧ 8 ≤ sb' ∧ sb' ≤ 15 ∧ 8 ≤ cb' ∧ cb' ≤ 15 ∧ 0 < thr' := by
   unfold Trans.initServerOption_pd
   refine ⟨_, _, _, _, _, rfl, ?_, ?_, ?_, ?_, ?_⟩ <;> simp only [Bool.or_eq_true, decide_eq_true_eq] <;>
     (repeat' split) <;> omega
 
 theorem client_bits_in_range (sb cb thr lvl ps : Int) :
-    ∃ cb' lvl' ps' sb' thr', Trans.initClientOption_pd true sb cb thr lvl ps = .ok (cb', lvl', ps', sb', thr')
+    ∃ cb' lvl' ps' sb' thr', Trans.initClientOption_pd (c_PermessageDeflate_Enabled := true) (c_PermessageDeflate_ServerMaxWindowBits := sb)
+        (c_PermessageDeflate_ClientMaxWindowBits := cb) (c_PermessageDeflate_Threshold := thr) (c_PermessageDeflate_Level := lvl)
+        (c_PermessageDeflate_PoolSize := ps) = .ok (cb', lvl', ps', sb', thr')
       ∧ 8 ≤ sb' ∧ sb' ≤ 15 ∧ 8 ≤ cb' ∧ cb' ≤ 15 ∧ 0 < thr' := by
   unfold Trans.initClientOption_pd
   refine ⟨_, _, _, _, _, rfl, ?_, ?_, ?_, ?_, ?_⟩ <;> simp only [Bool.or_eq_true, decide_eq_true_eq] <;>
@@ -139,8 +146,9 @@ theorem genFrame_decodes (cfg : Writer.Cfg) (codec : Codec) (cps : Win) (opcode 
     (fc : Writer.FrameCfg) (maskNum : UInt32) (wire : Bytes) (hop : opcode.toNat < 16) (hmax : cfg.writeMax < 2 ^ 62)
     (hlen : payload.flatten.length < 2 ^ 62)
     (hc : Writer.willCompress cfg fc opcode.toNat payload.flatten.length = false)
-    (h : Trans.Conn_genFrame GenOut.ret GenOut.compress opcode payload.flatten fc.checkEncoding (cfg.writeMax : Int) fc.compress
-          (cfg.threshold : Int) fc.fin fc.broadcast cfg.isServer maskNum = GenOut.ret (wire, none)) :
+    (h : Trans.Conn_genFrame GenOut.ret GenOut.compress opcode payload.flatten (cfg_checkEncoding := fc.checkEncoding)
+          (c_config_WriteMaxPayloadSize := (cfg.writeMax : Int)) (cfg_compress := fc.compress) (c_pd_Threshold := (cfg.threshold : Int))
+          (cfg_fin := fc.fin) (cfg_broadcast := fc.broadcast) (c_isServer := cfg.isServer) (maskNum := maskNum) = GenOut.ret (wire, none)) :
     ∃ hdr, Spec.decodeFrames wire = some [(hdr, payload.flatten)] ∧
       Spec.wellFormedSent (!cfg.isServer) hdr ∧ hdr.fin = fc.fin ∧ hdr.rsv1 = false ∧ hdr.opcode = opcode.toNat ∧
       hdr.len = payload.flatten.length := by
